@@ -1,4 +1,5 @@
 import PynguinModel.Lemmas.ArchiveMio
+import PynguinModel.Lemmas.ArchiveHeap
 /-!
 # C13 — The archive never loses a covered goal or a better solution
 
@@ -108,6 +109,55 @@ theorem goals_manager_update (objs : List Goal) (ops : List Op) (current : List 
   obtain ⟨⟨ops', ho⟩, _, hn, hu⟩ := gmUpdate_spec fuel (m := ⟨_, current, children⟩) inv h
   refine ⟨⟨ops', ?_⟩, hn, hu⟩
   rw [ho]; simp [CArchive.run, List.foldl_append]
+
+/-! ## Archived chromosomes are objects: only `update` / `add_goals` change what the archive holds
+
+`World` (`Model/ArchiveHeap.lean`) puts the chromosomes into an object store; the archive and the search loop
+hold references. Loop operations: new objects (population, offspring, clones), `archive.update` on references,
+`add_goals`, and `DynaMOSAAlgorithm.local_search` (clone the archived solutions, edit the clones in place,
+update with the clones). -/
+
+/-- No operation of the search loop alters an object that already exists (in particular an archived one), and
+what the archive holds changes only through value-level `update` / `add_goals` events: the operation amounts to
+the (possibly empty) list of archive events `op.events w`. Local search with `clone()` is such an operation. -/
+theorem archive_changes_only_through_update (w : World) (hi : HInv w) (op : LOp) (hop : op.aliasFree = true) :
+    w.heap <+: (w.step op).heap ∧ HInv (w.step op) ∧ (w.step op).a = w.a.run (op.events w) :=
+  step_frame hi op hop
+
+/-- After any alias-free history of the search loop, every archived reference, dereferenced NOW, is the
+solution that was archived, and it covers the goal it is archived for; `solutions` does not assert. -/
+theorem archived_object_covers_now (objs : List Goal) (ops : List LOp) (hops : ∀ op ∈ ops, op.aliasFree = true)
+    (g : Goal) (s : Sol) (h : (g, s) ∈ ((World.init objs).run ops).a.covered) :
+    ((World.init objs).run ops).heap[s.id]? = some s ∧ s.coversB g = true ∧
+      (refresh ((World.init objs).run ops).heap ((World.init objs).run ops).a).solutions ≠ none := by
+  obtain ⟨_, hi, evs, he⟩ := run_frame (hinv_init objs) ops hops
+  have hinit : (World.init objs).a = CArchive.init objs := rfl
+  rw [hinit] at he
+  refine ⟨hi.coh (g, s) h, ?_, ?_⟩
+  · rw [he] at h; exact archived_covers objs evs g s h
+  · rw [refresh_of_coh hi.coh, he]; exact solutions_never_asserts objs evs
+
+private def c1 : Sol := ⟨0, 2, some (false, false), [1]⟩       -- covers goal 1
+private def c2 : Sol := ⟨0, 2, some (false, false), [2]⟩       -- the same test after local search moved it to goal 2
+
+/-- Local search WITHOUT `clone()` breaks the clause: the archived object for goal 1 is rewritten in place into a
+test covering goal 2 (the suite got better: goal 2 is new); the following update archives it for goal 2 and keeps
+it for goal 1, which it does not cover any more — `solutions` trips its own assertion. With `clone()` the same
+edit leaves the archived object alone. -/
+theorem aliasing_local_search_cex :
+    let w := (World.init [1, 2]).run [.alloc [c1], .update [0], .aliasLocalSearch [(0, c2)]]
+    let w' := (World.init [1, 2]).run [.alloc [c1], .update [0], .localSearch [(0, c2)]]
+    (w.a.covered.map (fun p => (p.1, p.2.id)) = [(1, 0), (2, 0)] ∧ w.heap[0]?.map (·.coversB 1) = some false ∧
+      (refresh w.heap w.a).solutions = none) ∧
+    (w'.a.covered.map (fun p => (p.1, p.2.id)) = [(1, 0), (2, 1)] ∧ w'.heap[0]?.map (·.coversB 1) = some true ∧
+      w'.heap[1]?.map (·.coversB 2) = some true ∧ (refresh w'.heap w'.a).solutions ≠ none) := by
+  decide
+
+/-- the hypotheses of the two theorems above are satisfiable on a non-trivial history (a local search that
+succeeds on a clone) -/
+example : (∀ op ∈ [LOp.alloc [c1], .update [0], .localSearch [(0, c2)]], op.aliasFree = true) ∧
+    (2, { c2 with id := 1 }) ∈ ((World.init [1, 2]).run [.alloc [c1], .update [0], .localSearch [(0, c2)]]).a.covered := by
+  decide
 
 /-! ## MIOPopulation -/
 
